@@ -1,5 +1,7 @@
 // C11 Minimisers never end worse than they started and converge on convex bowls
 #include "../engine/harness.hpp"
+#include <set>
+#include <cstring>
 #include "../engine/lacommon.hpp"
 
 #include <functional>
@@ -368,6 +370,7 @@ VCLAUSE(nelder_mead_convergence_rate, 60000, 40, 800, "every batch is non-trivia
 	int ok_ws = 0, n_ws = 0, ok_all = 0, n_all = 0, exits = 0, trivial = 0;
 	// strata: a regression confined to one dimension, one overload or one tolerance band must not hide in the overall rate
 	int st_n[7][2] = {{0}}, st_ov[3][2] = {{0}}, st_tol[3][2] = {{0}};
+	std::set<uint64_t> distinct_bowls;
 	for(int b = 0; b < B; b++)
 	{
 		ObjN o		= gen_objn(s, false, 6, 1e4);
@@ -376,6 +379,16 @@ VCLAUSE(nelder_mead_convergence_rate, 60000, 40, 800, "every batch is non-trivia
 		std::vector<double> start, deltas;
 		double R, ds;
 		gen_start(s, o, start, deltas, R, ds, ws);
+		// a rate is a statement about many different bowls: a choice sequence that decodes to the same bowl again and again (a shrunk one:
+		// all words zero) is not a batch
+		{
+			uint64_t h = (uint64_t) o.n * 1315423911ULL;
+			auto mixd  = [&](double v) { uint64_t b; memcpy(&b, &v, 8); h = (h ^ b) * 0x100000001b3ULL; };
+			mixd(o.cond); mixd(o.f0); mixd(ftol); mixd(R); mixd(ds);
+			for(double v : start)
+				mixd(v);
+			distinct_bowls.insert(h);
+		}
 		Minimization M(ftol);
 		int ov	= (int) s.range(0, 2);
 		NMRun r = run_nm(c, M, o, start, deltas, ov, ftol, &s);
@@ -402,6 +415,8 @@ VCLAUSE(nelder_mead_convergence_rate, 60000, 40, 800, "every batch is non-trivia
 			ok_ws += good;
 		}
 	}
+	if((int) distinct_bowls.size() < B * 9 / 10 || n_all < B / 2)
+		throw Discard();
 	double rate_ws = (double) ok_ws / std::max(n_ws, 1), rate_all = (double) ok_all / n_all;
 	VLOG(c, "batch of " << B << ": converged " << ok_all << "/" << n_all << " overall (" << rate_all << "), " << ok_ws << "/" << n_ws << " with step within 10x of the distance (" << rate_ws << "), NMAX exits " << exits);
 	VLOG(c, "  " << trivial << " bowls whose start already met the tolerance were left out");
